@@ -488,7 +488,8 @@ Lemma huge_line_refuted :
   exists s, print_q 4 huge_line_witness = Ok s /\ parse_q 4 s = Ok huge_line_witness.
 Proof.
   split; [vm_compute; tauto|]. split; [reflexivity|]. split; [vm_compute; reflexivity|].
-  eexists. split; vm_compute; reflexivity.
+  exists (bs "swh:1:cnt:0000000000000000000000000000000000000000;lines=1000").
+  split; vm_compute; reflexivity.
 Qed.
 
 (* non-vacuity *)
